@@ -42,4 +42,39 @@ def run(ctx, prop=None, focus=None):
             ctx.sample({"ops": case.ops[:30], "total_ops": len(case.ops)})
 
     for case in ctx.cases("layout", ctx.params.get("n_hist", 300)):
-        ctx.run_case(case, one)
+        before = set(ctx.violations)
+        ok = ctx.run_case(case, one)
+        if not ok:
+            # minimise the witness of a new mechanism (bounded CPU time)
+            for key in set(ctx.violations) - before:
+                rec = ctx.violations[key]
+                if rec["property"] != prop or "history" not in rec:
+                    continue
+                small = layout.shrink(ctx, gtirb, rec["history"], prop,
+                                      rec["mechanism"])
+                if small is not None:
+                    rec["history_full_length"] = len(rec["history"])
+                    rec["history"] = small
+                    rec["history_minimised"] = True
+                    try:
+                        layout.replay_ops(ctx, gtirb, small, prop)
+                    except Exception as d:
+                        rec["what_on_minimised_history"] = str(d)[:600]
+
+
+def replay(ctx, rec):
+    import gtirb
+    from ..ctx import Discrepancy
+    prop = rec.get("property", ctx.prop)
+    if rec.get("history_minimised"):
+        for op in rec["history"]:
+            print("  ", op)
+        try:
+            layout.replay_ops(ctx, gtirb, rec["history"], prop)
+        except Discrepancy as d:
+            ctx.violation(d.prop, d.mechanism, d.what, None, d.detail)
+        return
+    c = rec.get("case") or {}
+    ctx.seed, ctx.tier = c.get("seed", ctx.seed), c.get("tier", ctx.tier)
+    ctx.only_case = (c.get("stream"), c.get("index"))
+    run(ctx, prop, {"C06": "C06", "C13": "C13"}.get(prop))
